@@ -275,8 +275,9 @@ def normalise(tree, relpath):
     known_functions = set(ref.get('__functions__', []))
     if known_functions:
         done.extend('%s: %s' % (relpath, x) for x in inline.inline_helpers(tree, known_functions))
+    proven = as_reference(tree, relpath, done)
     for key, fn in functions(tree):
-        if key not in ref or key == '__functions__':
+        if key not in ref or key == '__functions__' or key in proven:
             continue
         ren = plan(fn, [tuple(x) for x in ref[key].get('locals', [])])
         if ren:
@@ -303,6 +304,66 @@ def normalise(tree, relpath):
         if want:
             done.extend('%s:%s %s' % (relpath, key, x) for x in _restyle(fn, want))
     return done
+
+
+# ------------------------------------------------------------------------------------------- reference substitution
+
+REFDIR = os.path.join(os.path.dirname(os.path.abspath(__file__)), 'reference')
+_reftrees = {}
+
+
+def reference_functions(relpath):
+    """{key: FunctionDef} of the reference copy of one module (sa/reference/<relpath>.txt), in spelling normal form."""
+    if relpath not in _reftrees:
+        p = os.path.join(REFDIR, relpath + '.txt')
+        try:
+            with open(p) as fh:
+                t = ast.parse(fh.read())
+        except (IOError, SyntaxError):
+            _reftrees[relpath] = {}
+            return {}
+        normal_form(t)
+        _reftrees[relpath] = dict(functions(t))
+    return _reftrees[relpath]
+
+
+def _same(a, b):
+    return ast.dump(a) == ast.dump(b)
+
+
+def as_reference(tree, relpath, done):
+    """A function whose behavioural normal form (sa/equiv.py) equals that of the reference function of the same name is
+    analysed in its reference form: its body is replaced by the reference body.  The replacement is behaviour-preserving
+    because the two are proven equivalent; every rule then sees exactly the shape on which its instances were confirmed.
+    Functions that differ in behaviour (or whose equivalence cannot be proven) stay as they are.  Returns the keys replaced."""
+    if os.environ.get('SA_NO_EQUIV'):
+        return set()
+    from sa import equiv
+    reff = reference_functions(relpath)
+    if not reff:
+        return set()
+    proven = set()
+    cur = functions(tree)
+    for key, fn in cur:
+        r = reff.get(key)
+        if r is None or _same(fn, r):
+            continue
+        # nested defs are compared as part of their parent only
+        ok, why = equiv.equivalent(fn, r)
+        if not ok:
+            continue
+        new = ast.parse(ast.unparse(r)).body[0]
+        normal_form(new)
+        base = fn.lineno
+        last = getattr(fn, 'end_lineno', fn.lineno)
+        for n in ast.walk(new):
+            if hasattr(n, 'lineno'):
+                n.lineno = min(base + n.lineno - 1, last)
+                n.end_lineno = min(base + getattr(n, 'end_lineno', n.lineno) - 1, last) if getattr(n, 'end_lineno', None) else n.lineno
+        fn.args, fn.body, fn.decorator_list, fn.returns = new.args, new.body, new.decorator_list, new.returns
+        proven.add(key)
+        done.append('%s:%s proven equivalent to its reference form (same behavioural normal form); analysed in that form' % (relpath, key))
+    return proven
 
 
 _JUMPS = (ast.Return, ast.Raise, ast.Continue, ast.Break)
